@@ -95,7 +95,7 @@ func (w *world) checkSeq(what string, exp seqExp, obs seqObs) {
 		e.Violate("C08", "wrong_result", "%s returned %d, the reference LRU holds %d entries", what, obs.n, exp.n)
 		return
 	}
-	if !sameMultiset(exp.deletes, obs.deletes) {
+	if !w.noCB && !sameMultiset(exp.deletes, obs.deletes) {
 		e.Violate("C08", "delete_callback", "%s: the delete callback ran for %v, the reference LRU expects %v", what, obs.deletes, exp.deletes)
 	}
 }
@@ -164,7 +164,7 @@ func (w *world) checkSeqGet(k string, now time.Time, id int, err error, r *callR
 		e.Violate("C08", "wrong_value", "%s returned value #%d, the reference LRU holds value #%d for that key", what, id, expID)
 		return
 	}
-	if !sameMultiset(expDel, r.deletes) {
+	if !w.noCB && !sameMultiset(expDel, r.deletes) {
 		e.Violate("C08", "delete_callback", "%s: the delete callback ran for %v, the reference LRU (capacity %d) expects %v", what, r.deletes, m.capa, expDel)
 	}
 }
@@ -218,6 +218,9 @@ func Generate(r *sim.Rng, prop, tier string, idx int) *sim.Case {
 	keys := []string{"a", "b", "c", "d", "e", "f"}
 	if mode == "conc" {
 		genConc(r, c, keys)
+		if r.Chance(1, 8) {
+			c.Knobs["no_callback"] = 1 // the delete callback is optional
+		}
 		return c
 	}
 	if prop == "C11" && mode == "seq" && r.Chance(1, 12) {
@@ -297,6 +300,9 @@ func Generate(r *sim.Rng, prop, tier string, idx int) *sim.Case {
 				c.Faults = append(c.Faults, sim.Fault{Seam: "loader", Kind: "ttl", Node: k, Ord: int64(att), D: int64(sim.Pick(r, 10*time.Millisecond, 100*time.Millisecond, time.Second, -time.Millisecond, time.Duration(TTLYear2500), time.Duration(TTLYear9999), time.Duration(TTLZeroTime), 290*365*24*time.Hour))})
 			}
 		}
+	}
+	if mode == "seq" && r.Chance(1, 8) {
+		c.Knobs["no_callback"] = 1 // the delete callback is optional
 	}
 	return c
 }
